@@ -302,7 +302,7 @@ pub fn run_case(ctx: &mut Ctx, fam: &str, k: u64, r: &mut Rng) {
             }
             // the closure of a reachable node runs when it recorded a derivative: some operand tracked at use, or the
             // derivative was passed unconditionally
-            let any_tracked = fau[i].iter().any(|t| *t) || kind.forces_tracking();
+            let any_tracked = kind.result_tracked(fau[i].iter().any(|t| *t));
             if reach[i] && any_tracked {
                 // only user-defined nodes are observable at the API boundary
                 expect_call[i] = kind.is_custom();
